@@ -902,10 +902,12 @@ public:
         value(std::move(v)), sp{ sp }
     {}
 
-    constexpr operator VT() const { return value; }
+    constexpr operator VT() const & { return value; }
+    constexpr operator VT() && { return std::move(value); }
     constexpr size32_t get_line() const { return sp.line; }
     constexpr size32_t get_column() const { return sp.column; }
-    constexpr const VT& get_value() const { return value; }
+    constexpr const VT& get_value() const & { return value; }
+    constexpr VT&& get_value() && { return std::move(value); }
     constexpr source_point get_sp() const { return sp; }
 
 private:
